@@ -282,6 +282,17 @@ pub fn spawn_zinoma(
     args: &[String],
     extra_env: &[(String, String)],
 ) -> ZProc {
+    spawn_zinoma_in(sb, None, project_dir, args, extra_env)
+}
+
+/// Same, with an explicit working directory (so that `-p` can be a relative path).
+pub fn spawn_zinoma_in(
+    sb: &Sandbox,
+    cwd: Option<&Path>,
+    project_dir: &Path,
+    args: &[String],
+    extra_env: &[(String, String)],
+) -> ZProc {
     let n = COUNTER.fetch_add(1, Ordering::Relaxed);
     let out_path = sb.root.join(format!(".zv-out-{}", n));
     let err_path = sb.root.join(format!(".zv-err-{}", n));
@@ -290,6 +301,9 @@ pub fn spawn_zinoma(
     let mut cmd = Command::new(zinoma_bin());
     cmd.arg("-p").arg(project_dir);
     cmd.args(args);
+    if let Some(d) = cwd {
+        cmd.current_dir(d);
+    }
     cmd.env("ZV_TRACE", sb.trace_path());
     cmd.env("ZV_CASE", &sb.case_id);
     cmd.env("ZV_ROOT", &sb.root);
